@@ -61,11 +61,14 @@ VARIABLES pipeline,  \* "single" | "multi"
           w,         \* worker/job state  [j -> [pc, n]]
           planned, collected,
           tries,     \* failed sort attempts (sort_and_index retries at 3 temp locations)
-          crashed, crashAt, crashKind, crashJob
-vars == <<pipeline, prev, size, pc, status, unsorted, out, bai, w, planned, collected, tries, crashed, crashAt, crashKind, crashJob>>
+          crashed, crashAt, crashKind, crashJob,
+          tempLeft   \* the temporary folder could not be removed (reported on stderr only)
+vars == <<pipeline, prev, size, pc, status, unsorted, out, bai, w, planned, collected, tries, crashed, crashAt, crashKind, crashJob, tempLeft>>
 
 Jobs == 1 .. NJobs
 AllSizes == [Jobs -> 0 .. NMol]
+GenSizesQ == {<<1, 2, 1>>}                           \* scenario generation (NJobs = 3): `*` job, two contig jobs
+GenSizesT == {<<1, 2, 1>>, <<0, 1, 2>>, <<2, 0, 1>>}
 Sum(f) == FoldSet(LAMBDA j, acc : acc + f[j], 0, DOMAIN f)
 Total == Sum(size)
 
@@ -82,7 +85,7 @@ Init == /\ pipeline \in Pipelines
         /\ w = [j \in Jobs |-> WIdle]
         /\ planned = {} /\ collected = {}
         /\ tries = 0
-        /\ crashed = FALSE /\ crashAt = "" /\ crashKind = "" /\ crashJob = 0
+        /\ crashed = FALSE /\ crashAt = "" /\ crashKind = "" /\ crashJob = 0 /\ tempLeft = FALSE
 
 Step(from, to) == ~crashed /\ pc = from /\ pc' = to
 Same(v) == UNCHANGED v
@@ -90,55 +93,55 @@ Same(v) == UNCHANGED v
 ---------------------------------------------------------------------------------------------------
 (* common prefix  (run_multiome_tagging, bamtagmultiome.py:650-667)                                 *)
 StatusUnfinished == /\ Step("start", "verify") /\ status' = "unfinished"
-                    /\ UNCHANGED <<pipeline, prev, size, unsorted, out, bai, w, planned, collected, tries, crashed, crashAt, crashKind, crashJob>>
+                    /\ UNCHANGED <<pipeline, prev, size, unsorted, out, bai, w, planned, collected, tries, crashed, crashAt, crashKind, crashJob, tempLeft>>
 VerifyInput      == /\ Step("verify", "rmold")
-                    /\ UNCHANGED <<pipeline, prev, size, status, unsorted, out, bai, w, planned, collected, tries, crashed, crashAt, crashKind, crashJob>>
+                    /\ UNCHANGED <<pipeline, prev, size, status, unsorted, out, bai, w, planned, collected, tries, crashed, crashAt, crashKind, crashJob, tempLeft>>
 RemoveOld        == /\ Step("rmold", "openin") /\ out' = NoFile /\ bai' = "absent"
-                    /\ UNCHANGED <<pipeline, prev, size, status, unsorted, w, planned, collected, tries, crashed, crashAt, crashKind, crashJob>>
+                    /\ UNCHANGED <<pipeline, prev, size, status, unsorted, w, planned, collected, tries, crashed, crashAt, crashKind, crashJob, tempLeft>>
 OpenInput        == /\ Step("openin", IF pipeline = "single" THEN "open" ELSE "plan")
-                    /\ UNCHANGED <<pipeline, prev, size, status, unsorted, out, bai, w, planned, collected, tries, crashed, crashAt, crashKind, crashJob>>
+                    /\ UNCHANGED <<pipeline, prev, size, status, unsorted, out, bai, w, planned, collected, tries, crashed, crashAt, crashKind, crashJob, tempLeft>>
 
 ---------------------------------------------------------------------------------------------------
 (* single process pipeline *)
 OpenUnsorted  == /\ Step("open", "loop") /\ unsorted' = [st |-> "open", n |-> 0, rg |-> FALSE]
-                 /\ UNCHANGED <<pipeline, prev, size, status, out, bai, w, planned, collected, tries, crashed, crashAt, crashKind, crashJob>>
+                 /\ UNCHANGED <<pipeline, prev, size, status, out, bai, w, planned, collected, tries, crashed, crashAt, crashKind, crashJob, tempLeft>>
 WriteMolecule == /\ ~crashed /\ pc = "loop" /\ unsorted.n < Total
                  /\ unsorted' = [unsorted EXCEPT !.n = @ + 1]
-                 /\ UNCHANGED <<pipeline, prev, size, pc, status, out, bai, w, planned, collected, tries, crashed, crashAt, crashKind, crashJob>>
+                 /\ UNCHANGED <<pipeline, prev, size, pc, status, out, bai, w, planned, collected, tries, crashed, crashAt, crashKind, crashJob, tempLeft>>
 LoopEnd       == /\ Step("loop", "close") /\ unsorted.n = Total
                  /\ status' = IF StatusOrder = "impl" THEN "ok" ELSE status      \* D17: success reported here
-                 /\ UNCHANGED <<pipeline, prev, size, unsorted, out, bai, w, planned, collected, tries, crashed, crashAt, crashKind, crashJob>>
+                 /\ UNCHANGED <<pipeline, prev, size, unsorted, out, bai, w, planned, collected, tries, crashed, crashAt, crashKind, crashJob, tempLeft>>
 CloseUnsorted == /\ Step("close", "addrg") /\ unsorted' = [unsorted EXCEPT !.st = "closed"]
-                 /\ UNCHANGED <<pipeline, prev, size, status, out, bai, w, planned, collected, tries, crashed, crashAt, crashKind, crashJob>>
+                 /\ UNCHANGED <<pipeline, prev, size, status, out, bai, w, planned, collected, tries, crashed, crashAt, crashKind, crashJob, tempLeft>>
 AddReadGroups == /\ Step("addrg", "sort") /\ unsorted' = [unsorted EXCEPT !.rg = TRUE]    \* temp file + atomic rename
-                 /\ UNCHANGED <<pipeline, prev, size, status, out, bai, w, planned, collected, tries, crashed, crashAt, crashKind, crashJob>>
+                 /\ UNCHANGED <<pipeline, prev, size, status, out, bai, w, planned, collected, tries, crashed, crashAt, crashKind, crashJob, tempLeft>>
 SortBegin     == /\ Step("sort", "sorting") /\ out' = [st |-> "partial", n |-> 0, sorted |-> TRUE]
-                 /\ UNCHANGED <<pipeline, prev, size, status, unsorted, bai, w, planned, collected, tries, crashed, crashAt, crashKind, crashJob>>
+                 /\ UNCHANGED <<pipeline, prev, size, status, unsorted, bai, w, planned, collected, tries, crashed, crashAt, crashKind, crashJob, tempLeft>>
 SortFail      == /\ Step("sorting", "sort") /\ tries < 2 /\ tries' = tries + 1          \* caught, retried elsewhere
-                 /\ UNCHANGED <<pipeline, prev, size, status, unsorted, out, bai, w, planned, collected, crashed, crashAt, crashKind, crashJob>>
+                 /\ UNCHANGED <<pipeline, prev, size, status, unsorted, out, bai, w, planned, collected, crashed, crashAt, crashKind, crashJob, tempLeft>>
 SortEnd       == /\ Step("sorting", "index") /\ out' = [st |-> "complete", n |-> unsorted.n, sorted |-> TRUE]
-                 /\ UNCHANGED <<pipeline, prev, size, status, unsorted, bai, w, planned, collected, tries, crashed, crashAt, crashKind, crashJob>>
+                 /\ UNCHANGED <<pipeline, prev, size, status, unsorted, bai, w, planned, collected, tries, crashed, crashAt, crashKind, crashJob, tempLeft>>
 Index         == /\ Step("index", "rmunsorted") /\ bai' = "ok"
-                 /\ UNCHANGED <<pipeline, prev, size, status, unsorted, out, w, planned, collected, tries, crashed, crashAt, crashKind, crashJob>>
+                 /\ UNCHANGED <<pipeline, prev, size, status, unsorted, out, w, planned, collected, tries, crashed, crashAt, crashKind, crashJob, tempLeft>>
 RemoveUnsorted == /\ Step("rmunsorted", IF StatusOrder = "impl" THEN "done" ELSE "statusok")
                   /\ unsorted' = [unsorted EXCEPT !.st = "absent"]
-                  /\ UNCHANGED <<pipeline, prev, size, status, out, bai, w, planned, collected, tries, crashed, crashAt, crashKind, crashJob>>
+                  /\ UNCHANGED <<pipeline, prev, size, status, out, bai, w, planned, collected, tries, crashed, crashAt, crashKind, crashJob, tempLeft>>
 StatusOk      == /\ Step("statusok", "done") /\ status' = "ok"
-                 /\ UNCHANGED <<pipeline, prev, size, unsorted, out, bai, w, planned, collected, tries, crashed, crashAt, crashKind, crashJob>>
+                 /\ UNCHANGED <<pipeline, prev, size, unsorted, out, bai, w, planned, collected, tries, crashed, crashAt, crashKind, crashJob, tempLeft>>
 
 ---------------------------------------------------------------------------------------------------
 (* multiprocess pipeline *)
 Plan == /\ Step("plan", "pool")
         /\ IF PlanVariant = "design" THEN planned' = Jobs ELSE planned' \in SUBSET Jobs
-        /\ UNCHANGED <<pipeline, prev, size, status, unsorted, out, bai, w, collected, tries, crashed, crashAt, crashKind, crashJob>>
+        /\ UNCHANGED <<pipeline, prev, size, status, unsorted, out, bai, w, collected, tries, crashed, crashAt, crashKind, crashJob, tempLeft>>
 
 WStep(j, from, to) == /\ ~crashed /\ pc = "pool" /\ j \in planned /\ w[j].pc = from
                       /\ w' = [w EXCEPT ![j].pc = to]
-                      /\ UNCHANGED <<pipeline, prev, size, pc, status, unsorted, out, bai, planned, collected, tries, crashed, crashAt, crashKind, crashJob>>
+                      /\ UNCHANGED <<pipeline, prev, size, pc, status, unsorted, out, bai, planned, collected, tries, crashed, crashAt, crashKind, crashJob, tempLeft>>
 WOpen(j)   == WStep(j, "idle", "open")
 WWrite(j)  == /\ ~crashed /\ pc = "pool" /\ j \in planned /\ w[j].pc = "open" /\ w[j].n < size[j]
               /\ w' = [w EXCEPT ![j].n = @ + 1]
-              /\ UNCHANGED <<pipeline, prev, size, pc, status, unsorted, out, bai, planned, collected, tries, crashed, crashAt, crashKind, crashJob>>
+              /\ UNCHANGED <<pipeline, prev, size, pc, status, unsorted, out, bai, planned, collected, tries, crashed, crashAt, crashKind, crashJob, tempLeft>>
 WClose(j)  == w[j].n = size[j] /\ WStep(j, "open", "closed")
 WAddRG(j)  == WStep(j, "closed", "rg")
 WSort(j)   == WStep(j, "rg", "sorted")
@@ -148,19 +151,21 @@ WReturn(j) == WStep(j, "clean", "ret")        \* returns its path, or deletes th
 
 Collect    == /\ Step("pool", "header") /\ \A j \in planned : w[j].pc = "ret"
               /\ collected' = { j \in planned : size[j] > 0 }
-              /\ UNCHANGED <<pipeline, prev, size, status, unsorted, out, bai, w, planned, tries, crashed, crashAt, crashKind, crashJob>>
+              /\ UNCHANGED <<pipeline, prev, size, status, unsorted, out, bai, w, planned, tries, crashed, crashAt, crashKind, crashJob, tempLeft>>
 HeaderBam  == /\ Step("header", "merge")
-              /\ UNCHANGED <<pipeline, prev, size, status, unsorted, out, bai, w, planned, collected, tries, crashed, crashAt, crashKind, crashJob>>
+              /\ UNCHANGED <<pipeline, prev, size, status, unsorted, out, bai, w, planned, collected, tries, crashed, crashAt, crashKind, crashJob, tempLeft>>
 MergeBegin == /\ Step("merge", "merging") /\ out' = [st |-> "partial", n |-> 0, sorted |-> TRUE]
-              /\ UNCHANGED <<pipeline, prev, size, status, unsorted, bai, w, planned, collected, tries, crashed, crashAt, crashKind, crashJob>>
+              /\ UNCHANGED <<pipeline, prev, size, status, unsorted, bai, w, planned, collected, tries, crashed, crashAt, crashKind, crashJob, tempLeft>>
 MergeEnd   == /\ Step("merging", "indexmerged")
               /\ out' = [st |-> "complete", n |-> Sum([j \in collected |-> size[j]]), sorted |-> TRUE]
-              /\ UNCHANGED <<pipeline, prev, size, status, unsorted, bai, w, planned, collected, tries, crashed, crashAt, crashKind, crashJob>>
+              /\ UNCHANGED <<pipeline, prev, size, status, unsorted, bai, w, planned, collected, tries, crashed, crashAt, crashKind, crashJob, tempLeft>>
 IndexMerged == /\ Step("indexmerged", "rmparts") /\ bai' = "ok"
-               /\ UNCHANGED <<pipeline, prev, size, status, unsorted, out, w, planned, collected, tries, crashed, crashAt, crashKind, crashJob>>
+               /\ UNCHANGED <<pipeline, prev, size, status, unsorted, out, w, planned, collected, tries, crashed, crashAt, crashKind, crashJob, tempLeft>>
 RemoveParts == /\ Step("rmparts", "rmtemp")
-               /\ UNCHANGED <<pipeline, prev, size, status, unsorted, out, bai, w, planned, collected, tries, crashed, crashAt, crashKind, crashJob>>
-RemoveTemp  == /\ Step("rmtemp", "statusok")      \* a failing rmtree is caught and only reported on stderr: same transition
+               /\ UNCHANGED <<pipeline, prev, size, status, unsorted, out, bai, w, planned, collected, tries, crashed, crashAt, crashKind, crashJob, tempLeft>>
+RemoveTemp  == /\ Step("rmtemp", "statusok")
+               /\ UNCHANGED <<pipeline, prev, size, status, unsorted, out, bai, w, planned, collected, tries, crashed, crashAt, crashKind, crashJob, tempLeft>>
+RemoveTempFails == /\ Step("rmtemp", "statusok") /\ tempLeft' = TRUE     \* rmtree raises: caught, reported on stderr, run continues
                /\ UNCHANGED <<pipeline, prev, size, status, unsorted, out, bai, w, planned, collected, tries, crashed, crashAt, crashKind, crashJob>>
 
 ---------------------------------------------------------------------------------------------------
@@ -172,7 +177,7 @@ Crash(kind) ==
     /\ IF crashJob > 0 THEN UNCHANGED <<crashAt, crashKind, crashJob>>     \* the hung parent of a killed worker is killed
        ELSE crashAt' = pc /\ crashKind' = kind /\ crashJob' = 0
     /\ status' = IF kind = "exception" /\ pipeline = "single" /\ pc = "loop" THEN "fail" ELSE status
-    /\ UNCHANGED <<pipeline, prev, size, pc, unsorted, out, bai, w, planned, collected, tries>>
+    /\ UNCHANGED <<pipeline, prev, size, pc, unsorted, out, bai, w, planned, collected, tries, tempLeft>>
 
 (* a worker raising: the exception is re-raised in the parent by imap_unordered; a worker killed:  *)
 (* multiprocessing.Pool never delivers the result, the parent waits forever until it is killed too *)
@@ -181,13 +186,13 @@ WorkerCrash(j, kind) ==
     /\ IF kind = "exception"
        THEN crashed' = TRUE /\ crashAt' = "worker:" \o w[j].pc /\ crashKind' = kind /\ crashJob' = j /\ Same(w)
        ELSE w' = [w EXCEPT ![j].pc = "dead"] /\ crashAt' = "worker:" \o w[j].pc /\ crashJob' = j /\ crashKind' = kind /\ Same(crashed)
-    /\ UNCHANGED <<pipeline, prev, size, pc, status, unsorted, out, bai, planned, collected, tries>>
+    /\ UNCHANGED <<pipeline, prev, size, pc, status, unsorted, out, bai, planned, collected, tries, tempLeft>>
 
 Kinds == {"exception", "kill"}
 SingleNext == OpenUnsorted \/ WriteMolecule \/ LoopEnd \/ CloseUnsorted \/ AddReadGroups \/ SortBegin \/ SortFail \/ SortEnd
               \/ Index \/ RemoveUnsorted
 WorkerNext == \E j \in Jobs : WOpen(j) \/ WWrite(j) \/ WClose(j) \/ WAddRG(j) \/ WSort(j) \/ WIndex(j) \/ WRemoveUnsorted(j) \/ WReturn(j)
-MultiNext  == Plan \/ Collect \/ HeaderBam \/ MergeBegin \/ MergeEnd \/ IndexMerged \/ RemoveParts \/ RemoveTemp
+MultiNext  == Plan \/ Collect \/ HeaderBam \/ MergeBegin \/ MergeEnd \/ IndexMerged \/ RemoveParts \/ RemoveTemp \/ RemoveTempFails
 AnyCrash       == \E kind \in Kinds : Crash(kind)
 AnyWorkerCrash == \E j \in Jobs, kind \in Kinds : WorkerCrash(j, kind)
 Next == StatusUnfinished \/ VerifyInput \/ RemoveOld \/ OpenInput \/ SingleNext \/ WorkerNext \/ MultiNext \/ StatusOk
@@ -208,9 +213,11 @@ Inv_Type == /\ status \in {"none", "unfinished", "fail", "ok"}
             /\ status = "fail" => crashed
 
 (* scenario generation (rule 13): every crash point of the design model *)
-Emit == IF crashed \/ (\E j \in Jobs : w[j].pc = "dead")
+Emit == IF crashed \/ (\E j \in Jobs : w[j].pc = "dead") \/ pc = "done"
         THEN PrintT("@@SCENARIO " \o ToJson([pipeline |-> pipeline, size |-> size, prev |-> prev,
-                                             at |-> crashAt, kind |-> crashKind, job |-> crashJob,
+                                             at |-> IF pc = "done" /\ ~crashed THEN "done" ELSE crashAt,
+                                             kind |-> IF pc = "done" /\ ~crashed THEN (IF tempLeft THEN "rmtree_fails" ELSE "none") ELSE crashKind,
+                                             job |-> crashJob,
                                              k |-> IF crashJob > 0 THEN w[crashJob].n ELSE unsorted.n, tries |-> tries]))
         ELSE TRUE
 =====================================================================================================
